@@ -1,6 +1,7 @@
 package main
 
 import (
+	"runtime/debug"
 	"bytes"
 	"fmt"
 	"io"
@@ -457,7 +458,7 @@ func normalizeExecModel(m *sx.Sexp) *sx.Sexp {
 			idx = 1
 		case "err":
 			idx = 4
-		case "crash":
+		case "crash", "callee-panic":
 			idx = 1
 		}
 		if idx < 0 || idx >= len(m.Xs) {
@@ -521,16 +522,11 @@ func (pe *preparedExec) run(cmd, meta *sx.Sexp) (*sx.Sexp, string) {
 	data := decodeVal(cmd.Xs[7])
 	probeLog = nil
 	var buf bytes.Buffer
-	var xerr error
-	func() {
-		defer func() {
-			if e := recover(); e != nil {
-				xerr = crashErr{fmt.Sprint(e)}
-			}
-		}()
-		xerr = t.Execute(&buf, vars, data)
-	}()
+	xerr := executeContained(t, &buf, vars, data)
 	if ce, ok := xerr.(crashErr); ok {
+		if ce.callee {
+			return sx.L(sx.A("callee-panic"), outSexp(buf.Bytes())), ""
+		}
 		return sx.L(sx.A("crash"), outSexp(buf.Bytes())), "Execute panicked: " + ce.msg
 	}
 	oracle := ""
@@ -621,6 +617,48 @@ func clipS(s string) string {
 	return s
 }
 
-type crashErr struct{ msg string }
+type crashErr struct {
+	msg    string
+	callee bool // raised by a Go function called from the template with a non-error value (re-raised by design)
+}
+
+// panicOrigin inspects the stack of a recovered panic: a panic raised inside package jet, or by
+// reflect/runtime on jet's behalf, is jet's; one raised inside a function jet called (standard
+// library function exposed as a built-in, registry function) with a non-error value is re-raised by
+// Runtime.recover by design and is not a defect of jet.
+func panicOrigin(stack []byte) (callee bool) {
+	lines := strings.Split(string(stack), "\n")
+	seenPanic := false
+	for _, ln := range lines {
+		if strings.HasPrefix(ln, "\t") {
+			continue
+		}
+		if !seenPanic {
+			if strings.HasPrefix(ln, "panic(") {
+				seenPanic = true
+			}
+			continue
+		}
+		if strings.HasPrefix(ln, "runtime.") || strings.HasPrefix(ln, "panic(") {
+			continue
+		}
+		if strings.HasPrefix(ln, "github.com/CloudyKit/jet/v6") || strings.HasPrefix(ln, "reflect.") {
+			return false
+		}
+		return true
+	}
+	return false
+}
+
+// executeContained runs Execute and turns a panic into a crashErr
+func executeContained(t *jet.Template, w io.Writer, vars jet.VarMap, data interface{}) (xerr error) {
+	defer func() {
+		if e := recover(); e != nil {
+			_, isErr := e.(error)
+			xerr = crashErr{msg: fmt.Sprint(e), callee: !isErr && panicOrigin(debug.Stack())}
+		}
+	}()
+	return t.Execute(w, vars, data)
+}
 
 func (c crashErr) Error() string { return c.msg }
